@@ -4,9 +4,11 @@ import (
 	"go/ast"
 	"go/parser"
 	"go/token"
+	"os"
 	"path/filepath"
 	"sort"
 	"strconv"
+	"strings"
 )
 
 // EnvNames lists the environment variables the root package of dir reads with a
@@ -19,6 +21,36 @@ func EnvNames(dir string) (names []string, opaque []string) {
 	if err != nil {
 		return nil, nil
 	}
+	return envNamesOf(dir, files)
+}
+
+// commandFiles lists the non-test Go files below dir/sub (a command and the packages next to it), hook files excluded.
+func commandFiles(dir, sub string) []string {
+	var out []string
+	filepath.Walk(filepath.Join(dir, filepath.FromSlash(sub)), func(p string, info os.FileInfo, err error) error {
+		if err != nil || info.IsDir() {
+			return nil
+		}
+		n := info.Name()
+		if strings.HasSuffix(n, ".go") && !strings.HasSuffix(n, "_test.go") && !strings.HasPrefix(n, "verif_") {
+			if rel, err := filepath.Rel(dir, p); err == nil {
+				out = append(out, filepath.ToSlash(rel))
+			}
+		}
+		return nil
+	})
+	sort.Strings(out)
+	return out
+}
+
+// ToolEnvNames is EnvNames for a command (C17: the update-wordlist tool); ToolEnvValues its value candidates.
+func ToolEnvNames(dir, sub string) (names []string, opaque []string) {
+	return envNamesOf(dir, commandFiles(dir, sub))
+}
+
+func ToolEnvValues(dir, sub string) []string { return envValuesOf(dir, commandFiles(dir, sub)) }
+
+func envNamesOf(dir string, files []string) (names []string, opaque []string) {
 	seen := map[string]bool{}
 	for _, name := range files {
 		fset := token.NewFileSet()
@@ -121,6 +153,10 @@ func EnvValueCandidates(dir string) []string {
 	if err != nil {
 		return nil
 	}
+	return envValuesOf(dir, files)
+}
+
+func envValuesOf(dir string, files []string) []string {
 	seen := map[string]bool{}
 	var out []string
 	for _, name := range files {
